@@ -1970,7 +1970,10 @@ def run_case(family, spec, acc):
         pass
     except CaseTimeout:
         acc.inconclusive += 1
-    acc.case(fingerprint((family, spec)), nontrivial=nontrivial, labels=cx.labels + ["family:%s" % family], sample=None)
+    sample = None
+    if len(acc.samples) < acc.MAX_SAMPLES:
+        sample = dict(family=family, labels=sorted(set(cx.labels))[:12], spec=short(spec, 700))
+    acc.case(fingerprint((family, spec)), nontrivial=nontrivial, labels=cx.labels + ["family:%s" % family], sample=sample)
     return cx
 
 
